@@ -76,7 +76,7 @@ def write_coqproject():
             f.write(text)
 
 
-def build(clean=False):
+def build(clean=False, targets=None):
     """Regenerate kernels from REPO and (re)build the Coq development."""
     t0 = time.time()
     os.makedirs(WORK, exist_ok=True)
@@ -93,7 +93,7 @@ def build(clean=False):
                 raise HarnessError('coq_makefile failed:\n' + out)
         if clean:
             sh(['make', 'clean'], 300, cwd=COQ)
-        rc, out = sh(['timeout', '3000', 'make', '-k', '-j%d' % NPROC], 3100, cwd=COQ)
+        rc, out = sh(['bash', '-c', 'ulimit -v 12000000; timeout 3000 make -k -j%d COQC="timeout 240 coqc" %s' % (NPROC, ' '.join(targets or []))], 3100, cwd=COQ)
         b.log = out
         for m in re.finditer(r'\*\*\* \[Makefile\S*: (\S+\.vo)\] Error', out):
             b.failed.append(m.group(1))
